@@ -87,12 +87,17 @@ def run_invocation(out, name, args, prev_ths, origin):
         ev["eval_exc"] = type(ex).__name__
     # expansion produced?
     k = len(prev_ths)
+    ev["exp_lines"], ev["exp_last"] = [], [[], -1]
     try:
         sub = macro.expand(ItemID(k), args, [(ItemID(i), p) for i, p in enumerate(prev_ths)])
         ev["expand"] = [True, len(sub.items)]
         ev["expand_exc"] = ""
+        # ProofTerm.export: the expansion as numbered lines (ids are relative to the macro step's own id <<k>>)
+        ev["exp_lines"] = [[list(it.id.id), [list(ItemID(p).id) for p in it.prevs], it.rule] for it in flat(sub)][:400]
+        ev["exp_last"] = seq_of(sub.items[-1].th) if sub.items and sub.items[-1].th is not None else [[], -1]
     except NotImplementedError:
         return                      # no detailed expansion: outside the property
+
     except Exception as ex:
         ev["expand"] = [False, 0]
         ev["expand_exc"] = type(ex).__name__ + ": " + str(ex)[:80]
